@@ -33,6 +33,7 @@ def run(ctx):
                  ('heun', 'C09Cases(2, {0, 2, 3}, 6, {"heun"}, {<<1, 1, 2, 2>>, <<1, 2, 3, 3>>})')]
     exprs.append(('pop', 'C09PopCases(%d, {0, 2, 3, 4}, 8, {"euler"}, {<<1, 1, 2, 2>>, <<1, 2, 3, 3>>})' % (2 if tier == 'quick' else 3)))
     exprs.append(('popglobal', 'C09PopGlobalCases({2, 3}, 6)'))
+    exprs.append(('threetargets', 'C09ThreeTargetCases(8, {"euler"})'))
     cases = []
     for name, e in exprs:
         cases += sc.tlc_cases(ctx, 'C09' + name, e)
